@@ -73,11 +73,15 @@ class _ClassRun:
         return None
 
     def atom_trace(self, which: str, lines) -> list:
+        """executed atoms; a statement that spans several lines (directly adjacent line events) counts once, a statement
+        executed again after something else ran in between (a retry loop) counts again"""
         out = []
+        prev = None
         for code, ln in lines:
             a = self.atom_of(which, code, ln)
-            if a is not None and (not out or out[-1] != a):
+            if a is not None and a != prev:
                 out.append(a)
+            prev = a
         return out
 
     def site_text(self, which: str, site) -> tuple:
@@ -176,13 +180,15 @@ class C19(Prop):
         tr: list = []
         nfp = 0
         entries: list = []
+        prev = None
         for ev in o.events:
             a = cr.atom_of(which, ev[1], ev[2])
             if ev[0] == "line":
-                if a is not None and (not tr or tr[-1] != a):
+                if a is not None and a != prev:
                     tr.append(a)
                     if atoms[a].kind in FAULT_POINT_KINDS:
                         nfp += 1
+                prev = a
                 continue
             kind = ev[3]
             if a is None or atoms[a].kind not in FAULT_POINT_KINDS or not tr or tr[-1] != a:
@@ -313,7 +319,7 @@ class C19(Prop):
             fails.append(Failure(sig, f"{cr.name}: fault ({kinds}) in statement {ordinal} `{src}` of {owner}.open() "
                                       f"{what}; {e['detail']}",
                                  {"kind": "fault", **e["first"], "signature": sig}))
-        return fails, n_calls, free_ok
+        return fails, n_calls, free_ok, sorted({c[1] for c in o0.calls if c[3] == 'ok' and c[1] != 'close'})
 
     # -- several faults in one open() ---------------------------------------------
     def _sweep_multi(self, cr: _ClassRun, ctx: Ctx, res: Result, lines, impl, meta, with_model: bool, n_calls: int):
@@ -361,6 +367,67 @@ class C19(Prop):
             sig = f"{o1}.open 2 faults: stmt {n1} `{s1}` then stmt {n2} `{s2}` ({op2}) -> {clause} [{','.join(sorted(e['kinds']))}]"
             fails.append(Failure(sig, f"{cr.name}: two faults in open(): {sig}; {e['detail']}",
                                  {"kind": "fault2", **e["first"], "signature": sig}))
+        return fails
+
+    # -- "fails k times, then answers": retry loops ------------------------------------------------------------------
+    @staticmethod
+    def _retry_bound(cls) -> int:
+        """largest integer class constant that looks like a retry bound (…RETRY…, …ATTEMPT…, …TRIES…) + 2; default 3"""
+        best = 1
+        for k in cls.__mro__:
+            if not k.__module__.startswith("qmi.instruments."):
+                continue
+            for n, v in vars(k).items():
+                u = n.upper()
+                if isinstance(v, int) and not isinstance(v, bool) and 0 < v <= 10 and any(t in u for t in ("RETRY", "RETRIES", "ATTEMPT", "TRIES")):
+                    best = max(best, v)
+        return best + 2
+
+    def _sweep_failfirst(self, cr: _ClassRun, ctx: Ctx, res: Result, lines, impl, meta, with_model: bool, ops_seen: list):
+        """For every transport method that open() uses: its first k calls fail, the next one succeeds, for
+        k = 1 … (retry bound of the class)+2.  Independent of the translator (oracle only when there is no program)."""
+        D = cr.D
+        bound = self._retry_bound(cr.cls)
+        kinds = ("timeout", "os") if ctx.quick else D.EXC_KINDS
+        found: dict = {}
+        for op in ops_seen:
+            for k in range(1, bound + 1):
+                for kind in kinds:
+                    b = cr.builder.build(cr.cls, cr.variant)
+                    b.sess.reset_counters(None, fail_first=(op, k, kind))
+                    o = D.call_traced(b, "open", cr.maps["open"])
+                    nf = len(b.sess.fired_list)
+                    res.note_case((cr.name, "failfirst", op, k, kind, o.result, o.flag), nontrivial=nf > 0)
+                    res.count("fail_first_k_runs")
+                    res.count(f"fail_first_k_faults_fired_{min(nf, 7)}")
+                    if o.result == "ok":
+                        res.count("fail_first_k_open_succeeded_after_retries" if nf else "fail_first_k_no_fault")
+                    if with_model and cr.prog is not None:
+                        plan = self._model_plan(cr, "open", o)
+                        lines += [f"reset {cr.name}", f"open {plan}"]
+                        impl += [f"ok nlinks={len(cr.prog.links)}", self._impl_line(cr, "open", o)]
+                        meta += [None, {"class": cr.cls.__name__, "variant": cr.variant, "fault": f"first {k} {op}() fail with {kind}",
+                                        "model_plan": plan, "impl_io": self._impl_io(cr, "open", o), "exc": o.exc}]
+                    clause = D.classify(o.flag, o.links)
+                    if clause is None and o.result not in ("budget", "watchdog"):
+                        clause = self._recovery(cr, b, o, True)
+                    if clause:
+                        site = b.sess.fired_list[-1][2] if b.sess.fired_list else None
+                        owner, ordinal, src = cr.site_text("open", site)
+                        e = found.setdefault((owner, ordinal, src, op, clause), {"ks": set(), "kinds": set(), "first": None, "detail": ""})
+                        e["ks"].add(k)
+                        e["kinds"].add(kind)
+                        if e["first"] is None:
+                            e["first"] = {"class": cr.cls.__name__, "module": cr.cls.__module__, "variant": cr.variant,
+                                          "op": op, "k": k, "fault_kind": kind}
+                            e["detail"] = (f"the first {k} call(s) of transport.{op}() failed ({kind}), call {k + 1} "
+                                           f"{'succeeded' if nf == k else 'was not reached'}; open() "
+                                           f"{'returned' if o.result == 'ok' else 'raised ' + repr(o.exc)}; is_open()={o.flag} links={o.links}")
+        fails = []
+        for (owner, ordinal, src, op, clause), e in sorted(found.items()):
+            ks = ",".join(map(str, sorted(e["ks"])))
+            sig = f"{owner}.open stmt {ordinal} `{src}`: first k={ks} {op}() calls fail then succeed -> {clause} [{','.join(sorted(e['kinds']))}]"
+            fails.append(Failure(sig, f"{cr.name}: {sig}; {e['detail']}", {"kind": "failfirst", **e["first"], "signature": sig}))
         return fails
 
     # -- faults inside close() ----------------------------------------------------
@@ -724,7 +791,7 @@ class C19(Prop):
             if only is not None and cr.cls.__name__ not in only:
                 continue
             try:
-                fails, n_calls, free_ok = self._sweep_class(cr, res, lines, impl, meta, with_model)
+                fails, n_calls, free_ok, ops_seen = self._sweep_class(cr, res, lines, impl, meta, with_model)
             except Exception as e:
                 res.broken.append(Broken("correspondence", f"C19.sweep.{cr.name}",
                                          f"{type(e).__name__}: {e}\n{traceback.format_exc()[-1500:]}"))
@@ -733,6 +800,7 @@ class C19(Prop):
             res.count("transport_calls_in_fault_free_open", n_calls)
             try:
                 res.failures += self._sweep_multi(cr, ctx, res, lines, impl, meta, with_model, n_calls)
+                res.failures += self._sweep_failfirst(cr, ctx, res, lines, impl, meta, with_model, ops_seen)
                 cfails = self._sweep_close(cr, ctx, res, lines, impl, meta, with_model)
                 res.failures += cfails
             except Exception as e:
@@ -886,7 +954,7 @@ class C19(Prop):
         cr = runs[0]
         res = Result()
         if rp.get("kind") == "fault":
-            fails, _, _ = self._sweep_class(cr, res, [], [], [], with_model=False)
+            fails, _, _, _ = self._sweep_class(cr, res, [], [], [], with_model=False)
             for f in fails:
                 if f.signature == rp.get("signature"):
                     return f
@@ -894,6 +962,12 @@ class C19(Prop):
                 if f.replay.get("k") == rp.get("k") and f.replay.get("fault_kind") == rp.get("fault_kind"):
                     return f
             return fails[0] if fails and not rp.get("signature") else None
+        if rp.get("kind") == "failfirst":
+            fails = self._sweep_failfirst(cr, ctx, res, [], [], [], False, [rp["op"]])
+            for f in fails:
+                if f.signature == rp.get("signature"):
+                    return f
+            return fails[0] if fails else None
         if rp.get("kind") in ("closefault", "fault2"):
             fails = (self._sweep_close(cr, ctx, res, [], [], [], False) if rp["kind"] == "closefault"
                      else self._sweep_multi(cr, ctx, res, [], [], [], False, self._one_open(cr, None)[0].sess.n))
